@@ -6,7 +6,8 @@
    only other successor, else stop), both from Spec.CfgSpec; [lift] is the
    mirror of build_basic_blocks. *)
 From stdpp Require Import list.
-Require Import Model.Lift Spec.CfgSpec Proofs.CfgContains Proofs.RunFuel.
+Require Import Model.Lift Model.Shortcuts Spec.CfgSpec Spec.SurfaceSpec Proofs.CfgContains Proofs.RunFuel
+  Proofs.SurfaceProofs.
 Import Base(outcome, Ok).
 
 (* for every definition that lifts and every decision list: the statements the
@@ -33,14 +34,85 @@ Theorem C13_cfg_equals_source_at_end : forall body g ds,
 Proof. exact cfg_equals_source_at_end. Qed.
 Print Assumptions C13_cfg_equals_source_at_end.
 
-(* `for` loops: the parser's for_into_while (mirrored in Model.Lift) builds
-   exactly the init / while cond { body; step } expansion that defines the
-   meaning of `for`; compound assignments stay one statement *)
-Theorem C13_for_into_while_sem : forall init c step body,
-  for_into_while init c step body = for_expansion init c step body /\
-  forall id, desugar (UCompound id) = SLeaf id false.
-Proof. intros. split; reflexivity. Qed.
-Print Assumptions C13_for_into_while_sem.
+(* ---- last sentence of the property: `for` loops and compound assignments ----
+   (replaces C13_for_into_while_sem, which only restated two definitions)
+
+   [uexec] (Spec.SurfaceSpec) is a relational big-step semantics of the SURFACE
+   statement forms, given without fuel, blocks or `while`: for a
+   `for (init; c; step) body` it runs init once, evaluates c, and when the
+   decision is true runs body, then step, and evaluates c again.  The expansion
+   the parser builds (mirrored by Model.Lift.desugar / for_into_while: a block
+   holding init and a while whose body is the block [body; step]) run under the
+   fuelled semantics of the core forms gives exactly the same executions. *)
+Theorem C13_surface_semantics_is_expansion : forall u ds tr ds' st,
+  uexec u ds tr ds' st <-> run (desugar u) ds = (tr, ds', st).
+Proof. exact uexec_iff_run. Qed.
+Print Assumptions C13_surface_semantics_is_expansion.
+
+(* the surface semantics is total (so the hypothesis [uexec ..] below can always
+   be met) and never yields the fuel status *)
+Theorem C13_surface_semantics_total : forall u ds,
+  exists tr ds' st, uexec u ds tr ds' st /\ st <> Diverged.
+Proof. exact uexec_total. Qed.
+Print Assumptions C13_surface_semantics_total.
+
+(* the property for surface programs: whatever a definition with `for` loops and
+   compound assignments executes under a decision list is what every long
+   enough walk of the graph lifted from its expansion meets first *)
+Theorem C13_cfg_contains_surface_execution : forall u g ds tr ds' st,
+  lift (desugar u) = Ok g -> uexec u ds tr ds' st ->
+  exists n0, forall n, n0 <= n -> tr `prefix_of` walk n g ds.
+Proof. exact cfg_contains_surface_execution. Qed.
+Print Assumptions C13_cfg_contains_surface_execution.
+
+(* compound assignments.  [exec_stmt bop num s st] is the store semantics of the
+   four surface forms `x[..] = e`, `x[..] op= e`, `x[..]++`, `x[..]--`, the
+   compound ones as read-modify-write with the OLD VALUE OF THE TARGET AS LEFT
+   OPERAND, for an arbitrary value type V, an arbitrary meaning [bop] of the
+   twelve operators (none assumed commutative) and of literals [num].
+   [expected_statement] is the plain assignment `x[..] = x[..] op e` the run-time
+   check demands of the real parser; [parse_substitution] mirrors what
+   ast_shortcuts.rs (assign_with_op_shortcut, plusplus, subsub) builds.  Both
+   mean the same as the source form, in every store. *)
+Theorem C13_compound_expansion_sem :
+  forall (N V : Type) (HN : EqDecision N) (HV : EqDecision V)
+         (bop : binop -> V -> V -> V) (num : nat -> V) (s : cstmt N) (st : store N V),
+  exec_stmt bop num (expected_statement s) st = exec_stmt bop num s st.
+Proof. exact (@expected_statement_sem). Qed.
+Print Assumptions C13_compound_expansion_sem.
+
+Theorem C13_compound_mirror_sem :
+  forall (N V : Type) (HN : EqDecision N) (HV : EqDecision V)
+         (bop : binop -> V -> V -> V) (num : nat -> V) (s : cstmt N) (st : store N V),
+  exec_stmt bop num (parse_substitution s) st = exec_stmt bop num s st.
+Proof. exact (@parse_substitution_sem). Qed.
+Print Assumptions C13_compound_mirror_sem.
+
+(* the two statements above discriminate: with the operands the other way
+   round (`x = e - x` for `x -= e`), or with 2 for 1 in `x++`, the assignment
+   means something else in some store *)
+Example C13_swapped_operands_differ :
+  exists (bop : binop -> nat -> nat -> nat) (num : nat -> nat) (st : store nat nat) (e : ex nat),
+    exec_stmt bop num (CAssign 0 [] (EInfix Sub e (EVar 0 []))) st 0 []
+    <> exec_stmt bop num (COpAssign Sub 0 [] e) st 0 [].
+Proof. exact swapped_operands_differ. Qed.
+
+Example C13_plus_two_differs :
+  exists (bop : binop -> nat -> nat -> nat) (num : nat -> nat) (st : store nat nat),
+    exec_stmt bop num (CAssign 0 [] (EInfix Add (EVar 0 []) (ENum 2))) st 0 []
+    <> exec_stmt bop num (CInc 0 []) st 0 [].
+Proof. exact plus_two_differs. Qed.
+
+(* non-vacuity of the surface semantics: a `for` loop whose second iteration
+   returns from the body; step 4 runs after body 5 in the first iteration only *)
+Example C13_for_witness :
+  let u := UBlock [UFor (ULeaf 1 false) 2 (UCompound 4)
+                        (UBlock [ULeaf 5 false; UIf 6 (ULeaf 7 true) None]);
+                   ULeaf 8 false] in
+  uexec u [true; false; true; true]
+        [KLeaf 1; KCond 2; KLeaf 5; KCond 6; KLeaf 4; KCond 2; KLeaf 5; KCond 6; KLeaf 7] [] Returned /\
+  uexec u [false] [KLeaf 1; KCond 2; KLeaf 8] [] Running.
+Proof. split; apply uexec_iff_run; reflexivity. Qed.
 
 (* the structured semantics is not cut short by its own recursion fuel: every
    loop iteration consumes a decision, |ds|+1 iterations suffice *)
